@@ -46,15 +46,19 @@ fn k_parse_repository_category_ex1() { prc_contract(&[b'b', b'g', b'/', b'e', b'
 #[kani::stub(std::collections::hash_map::RandomState::new, rs_model)]
 fn k_parse_repository_category_ex2() { prc_contract(&[b'b', b'g', b'/', b'e', b'x', b'2', b'/', any_lower(), any_lower()], 2); }
 
-//@unit props=C01 label=B tier=quick fn=gamedata::GameData::parse_repository_category bound="paths bg/ffxiv/<c> and bg/<c><d> with symbolic lower-case letters" stubs=RandomState::new
-//@desc a path that names the base repository, or no repository at all, resolves to the base repository
+//@unit props=C01 label=B tier=quick fn=gamedata::GameData::parse_repository_category bound="paths bg/ffxiv/<c> with a symbolic lower-case letter" stubs=RandomState::new
+//@desc a path that names the base repository resolves to the base repository
 #[kani::proof]
 #[kani::unwind(12)]
 #[kani::stub(std::collections::hash_map::RandomState::new, rs_model)]
-fn k_parse_repository_category_base() {
-    if kani::any() { prc_contract(&[b'b', b'g', b'/', b'f', b'f', b'x', b'i', b'v', b'/', any_lower()], 0); }
-    else { prc_contract(&[b'b', b'g', b'/', any_lower(), any_lower()], 0); }
-}
+fn k_parse_repository_category_base() { prc_contract(&[b'b', b'g', b'/', b'f', b'f', b'x', b'i', b'v', b'/', any_lower()], 0); }
+
+//@unit props=C01 label=B tier=thorough fn=gamedata::GameData::parse_repository_category bound="paths bg/<c>q with a symbolic lower-case letter" stubs=RandomState::new
+//@desc a path that names no repository at all resolves to the base repository
+#[kani::proof]
+#[kani::unwind(12)]
+#[kani::stub(std::collections::hash_map::RandomState::new, rs_model)]
+fn k_parse_repository_category_norepo() { prc_contract(&[b'b', b'g', b'/', any_lower(), b'q'], 0); }
 
 //@unit props=C01 label=B tier=thorough fn=gamedata::GameData::parse_repository_category bound="paths zz/<c> (unknown category) and a 3-letter path without '/'" stubs=RandomState::new
 //@desc unknown categories and paths without a separator resolve to nothing
